@@ -48,6 +48,7 @@ type RunCtx struct {
 	// walk at an order-dependent point); the run is left out of the self-check.
 	UnorderedDigest bool
 	DigestUnstable  bool
+	KillOnExit      bool // crash scenarios: remaining tasks are killed (Goexit at their yield)
 }
 
 func (rc *RunCtx) Failf(rule, class, format string, a ...interface{}) {
@@ -167,7 +168,12 @@ func execRun(t *testing.T, sc *Scenario, tape *simrt.Tape, seed, run uint64, tie
 			}
 			// clean up whatever is left so the bubble can end
 			if len(sim.LiveTasks()) > 0 {
-				sim.Kill()
+				if rc.KillOnExit {
+					sim.Kill() // simulated process kill: tasks exit at their yield
+				} else {
+					sim.Abandon() // stuck run: leave them parked (see simrt.Abandon)
+					res.Stats["run.abandoned-tasks"] += len(sim.LiveTasks())
+				}
 			}
 			if rc.Dir != "" {
 				os.RemoveAll(rc.Dir)
